@@ -225,6 +225,10 @@ pub fn expr(j: &J) -> SimpleExpr {
     }
 }
 
+pub fn func_call(name: &str, args: &J) -> FunctionCall {
+    func(name, args)
+}
+
 fn func(name: &str, args: &J) -> FunctionCall {
     let xs = exprs(args);
     let first = || xs[0].clone();
